@@ -36,6 +36,9 @@ pub struct ProbeSpec {
     /// output act on its own talkback: (trigger, k, probe index, what it does) - two consumers that
     /// know of each other (one's completion makes the other leave, one's datum makes the other pull)
     pub poke: Option<(u8, usize, usize, React)>,
+    /// from inside a handler (same trigger encoding), make upstream puppet `p` emit its next script
+    /// item: a consumer that feeds, completes or fails the very source it listens to - (trigger, k, p)
+    pub feed: Option<(u8, usize, usize)>,
     /// the sink may send Pulls after it received the end or after it disposed (from_iter / C15 only)
     pub late_pulls: bool,
     /// the sink does not keep the talkback it is greeted with (it can then never act; conformant)
@@ -44,10 +47,10 @@ pub struct ProbeSpec {
 
 impl ProbeSpec {
     pub fn passive() -> Self {
-        ProbeSpec { policy: vec![], rest: React::Nothing, pull_cap: 1000, attach: None, poke: None, late_pulls: false, drop_talkback: false }
+        ProbeSpec { policy: vec![], rest: React::Nothing, pull_cap: 1000, attach: None, poke: None, feed: None, late_pulls: false, drop_talkback: false }
     }
     pub fn puller() -> Self {
-        ProbeSpec { policy: vec![], rest: React::Pull, pull_cap: 1000, attach: None, poke: None, late_pulls: false, drop_talkback: false }
+        ProbeSpec { policy: vec![], rest: React::Pull, pull_cap: 1000, attach: None, poke: None, feed: None, late_pulls: false, drop_talkback: false }
     }
 }
 
@@ -73,6 +76,8 @@ pub struct Probe<T> {
     pub last_err: Mutex<Option<DynErr>>,
     /// called at the end of every handler with (trigger, k); used to attach other probes
     pub hook: Mutex<Option<Arc<dyn Fn(u8, usize) + Send + Sync>>>,
+    /// second hook of the same kind (source feedback, wired after the puppets exist)
+    pub hook2: Mutex<Option<Arc<dyn Fn(u8, usize) + Send + Sync>>>,
 }
 
 impl<T: Repr + Send + Sync + 'static> Probe<T> {
@@ -96,6 +101,7 @@ impl<T: Repr + Send + Sync + 'static> Probe<T> {
             subscribed: Mutex::new(false),
             last_err: Mutex::new(None),
             hook: Mutex::new(None),
+            hook2: Mutex::new(None),
         })
     }
 
@@ -168,6 +174,10 @@ impl<T: Repr + Send + Sync + 'static> Probe<T> {
     fn run_hook(&self, trigger: u8, k: usize) {
         let h = self.hook.lock().unwrap().clone();
         if let Some(h) = h {
+            h(trigger, k);
+        }
+        let h2 = self.hook2.lock().unwrap().clone();
+        if let Some(h) = h2 {
             h(trigger, k);
         }
     }
@@ -256,6 +266,8 @@ pub trait ProbeCtl: Send + Sync {
     fn is_subscribed(&self) -> bool;
     fn err_id(&self) -> i32;
     fn teardown(&self);
+    fn feed(&self) -> Option<(u8, usize, usize)>;
+    fn set_hook2(&self, h: Arc<dyn Fn(u8, usize) + Send + Sync>);
 }
 
 impl<T: Repr + Send + Sync + 'static> ProbeCtl for Arc<Probe<T>> {
@@ -280,6 +292,13 @@ impl<T: Repr + Send + Sync + 'static> ProbeCtl for Arc<Probe<T>> {
     fn teardown(&self) {
         *self.talkback.lock().unwrap() = None;
         *self.hook.lock().unwrap() = None;
+        *self.hook2.lock().unwrap() = None;
         *self.last_err.lock().unwrap() = None;
+    }
+    fn feed(&self) -> Option<(u8, usize, usize)> {
+        self.spec.feed
+    }
+    fn set_hook2(&self, h: Arc<dyn Fn(u8, usize) + Send + Sync>) {
+        *self.hook2.lock().unwrap() = Some(h);
     }
 }
